@@ -712,6 +712,11 @@ class RsInterp:
         m = e['m']
         recv_e = e['recv']
         # mutating methods need the place of the receiver
+        if m in ('reserve', 'shrink_to_fit', 'reserve_exact'):
+            self.ev(recv_e, env)
+            for a in e['args']:
+                self.ev(a, env)
+            return ()                            # capacity only: no observable effect
         if m in ('push', 'pop', 'clear', 'next', 'take', 'remove'):
             pl = None
             try:
